@@ -14,6 +14,37 @@ from concurrent.futures import ProcessPoolExecutor
 from . import framework as fw
 
 SCRATCH_ROOT = os.path.expanduser("~/.cache/verif-scratch")
+_USERS = None
+
+
+def _enter_scratch():
+    """Register as a user of the scratch root (shared lock on a file NEXT to it)."""
+    global _USERS
+    import fcntl
+    os.makedirs(SCRATCH_ROOT, exist_ok=True)
+    if _USERS is None:
+        _USERS = open(SCRATCH_ROOT + ".users", "w")
+        fcntl.flock(_USERS, fcntl.LOCK_SH)
+
+
+def _leave_scratch():
+    """Remove the scratch root (scratch copies + build output) when this was its last user: another self-test, probe or
+    debugging run that is still working in it keeps it."""
+    global _USERS
+    import fcntl
+    if _USERS is None:
+        return
+    try:
+        fcntl.flock(_USERS, fcntl.LOCK_EX | fcntl.LOCK_NB)
+    except OSError:
+        fcntl.flock(_USERS, fcntl.LOCK_UN)
+        _USERS.close()
+        _USERS = None
+        return
+    shutil.rmtree(SCRATCH_ROOT, ignore_errors=True)
+    fcntl.flock(_USERS, fcntl.LOCK_UN)
+    _USERS.close()
+    _USERS = None
 MANIFEST = os.path.join(fw.VERIF, "mutants", "manifest.json")
 
 
@@ -76,7 +107,7 @@ def run_for_property(prop):
     by_slot = {}
     for j in jobs:
         by_slot.setdefault(j[3], []).append(j)
-    os.makedirs(SCRATCH_ROOT, exist_ok=True)
+    _enter_scratch()
     out = {}
     with ProcessPoolExecutor(max_workers=workers) as ex:
         for res in ex.map(_run_slot, list(by_slot.values())):
@@ -86,7 +117,7 @@ def run_for_property(prop):
                 else:
                     fired = sorted({rule for rule, key, d in r["violations"].get(prop, [])})
                     out[name] = ("CAUGHT by " + ",".join(fired)) if fired else "MISSED"
-    shutil.rmtree(SCRATCH_ROOT, ignore_errors=True)
+    _leave_scratch()
     return out
 
 
@@ -106,7 +137,7 @@ def refactors(argv):
     by_slot = {}
     for j in jobs:
         by_slot.setdefault(j[3], []).append(j)
-    os.makedirs(SCRATCH_ROOT, exist_ok=True)
+    _enter_scratch()
     rc = 0
     quiet = 0
     with ProcessPoolExecutor(max_workers=workers) as ex:
@@ -126,7 +157,7 @@ def refactors(argv):
                     quiet += 1
                     print("SILENT %-40s [%.0fs]" % (name, r["wall_s"]))
     print("refactors: %d/%d silent" % (quiet, len(jobs)))
-    shutil.rmtree(SCRATCH_ROOT, ignore_errors=True)
+    _leave_scratch()
     return rc
 
 
@@ -146,7 +177,7 @@ def main(argv):
         jobs.append((name, patch, props, 0))
     workers = min(8, max(1, len(jobs)))
     jobs = [(a, b, c, i % workers) for i, (a, b, c, _) in enumerate(jobs)]
-    os.makedirs(SCRATCH_ROOT, exist_ok=True)
+    _enter_scratch()
     results = {}
     # jobs sharing a slot share a cargo target dir: run slots in parallel, jobs of a slot serially
     by_slot = {}
@@ -184,7 +215,7 @@ def main(argv):
                 for rule, key, d in vs:
                     print("          %s %s %s: %s" % (prop, rule, key, d))
     print("selftest: %d/%d mutants caught" % (caught, len(results)))
-    shutil.rmtree(SCRATCH_ROOT, ignore_errors=True)
+    _leave_scratch()
     return rc
 
 
